@@ -199,7 +199,7 @@ impl Engine for WorldEngine {
     }
     fn level(&self) -> &'static str {
         match self.property.as_str() {
-            "C01" | "C07" | "C08" | "C15" => "fault_enumeration",
+            "C01" | "C07" | "C08" | "C13" | "C15" => "fault_enumeration",
             _ => "exploration",
         }
     }
